@@ -87,6 +87,13 @@ def main() -> int:
         try:
             for pid in m["pids"]:
                 rc, out = run_check(pid, d, a.runs)
+                if m.get("benign"):
+                    ok = rc == 0
+                    bad += not ok
+                    print(f"{'ok  ' if ok else 'FALSE-ALARM'} {m['id']:<34} {pid} rc={rc} (benign control)")
+                    if not ok:
+                        print("   " + out.strip()[-600:].replace("\n", "\n   "))
+                    continue
                 caught = rc == 1 and "VIOLATION property=" + pid in out
                 bad += not caught
                 oracle = ""
